@@ -1,2 +1,99 @@
+"""Sanitizer legs (thorough tier of C08 and C18): the same kind of op stream, replayed through halosrv under
+valgrind memcheck. The only `unsafe` reachable from the repository is in the dependency bigint-4.4.3
+(mem::uninitialized + ptr::write in U256 add/sub/mul, from_utf8_unchecked in Display); memcheck's definedness
+tracking checks that every limb is written before it is read on the executed paths, plus invalid reads/writes.
+
+A memcheck error is a VIOLATION (silently-wrong arithmetic / text is what C08 / C18 exclude); a differing result
+between the native and the instrumented run likewise. A leg that cannot run (tool missing, watchdog) is recorded
+as skipped in the evidence and never becomes a verdict."""
+import json
+import os
+import shutil
+import subprocess
+import tempfile
+import time
+
+from . import gen
+from .core import SRV_BIN, VERIF, sub_rng, to_limbs, D, M256
+
+N_PROCS = 16
+CALLS_PER_PROC = 30000
+WATCHDOG_S = 900
+
+
+def c08_stream(rng, n):
+    from .props import c08
+    ops = list(c08.OPS) + list(c08.SCALAR)
+    out = []
+    for i in range(n):
+        op = ops[i % len(ops)]
+        args, _ = c08.gen_case(rng, op)
+        out.append({"op": "call", "f": op, "a": c08.encode_args(op, args)})
+    return out
+
+
+def c18_stream(rng, n):
+    from .props import c18
+    out = []
+    vals = c18.dec_values(rng, n // 4)
+    for v in vals:
+        out.append({"op": "call", "f": "d_to_string", "a": [to_limbs(v)]})
+        out.append({"op": "call", "f": "u_to_string", "a": [to_limbs(v)]})
+        out.append({"op": "call", "f": "d_json_ser", "a": [to_limbs(v)]})
+    for s in c18.random_strings(rng, n // 4):
+        out.append({"op": "call", "f": "d_from_str", "a": [s]})
+    return out
+
+
 def memcheck_leg(acc, prop, seed):
-    pass
+    vg = shutil.which("valgrind")
+    if not vg:
+        acc.count("memcheck_leg_skipped_no_valgrind")
+        return
+    scratch = os.path.join(VERIF, "scratch")
+    os.makedirs(scratch, exist_ok=True)
+    tmp = tempfile.mkdtemp(prefix="memcheck-%s-" % prop, dir=scratch)
+    try:
+        procs = []
+        for i in range(N_PROCS):
+            rng = sub_rng(seed, prop, "memcheck", i)
+            stream = c08_stream(rng, CALLS_PER_PROC) if prop == "C08" else c18_stream(rng, CALLS_PER_PROC)
+            rq = os.path.join(tmp, "req%d.jsonl" % i)
+            with open(rq, "w") as f:
+                for j in range(0, len(stream), 200):
+                    f.write(json.dumps(stream[j:j + 200], separators=(",", ":")) + "\n")
+            native = subprocess.run([SRV_BIN], stdin=open(rq), stdout=subprocess.PIPE, stderr=subprocess.DEVNULL)
+            log = os.path.join(tmp, "vg%d.log" % i)
+            out = open(os.path.join(tmp, "out%d.jsonl" % i), "w")
+            p = subprocess.Popen([vg, "--error-exitcode=97", "--quiet", "--log-file=" + log, SRV_BIN],
+                                 stdin=open(rq), stdout=out, stderr=subprocess.DEVNULL)
+            procs.append((i, p, native.stdout, log, out, len(stream)))
+        t0 = time.time()
+        for i, p, native_out, log, out, n in procs:
+            try:
+                rc = p.wait(timeout=max(1, WATCHDOG_S - (time.time() - t0)))
+            except subprocess.TimeoutExpired:
+                p.kill()
+                acc.count("memcheck_leg_skipped_watchdog")
+                continue
+            out.close()
+            acc.count("memcheck_calls", n)
+            acc.count("memcheck_processes")
+            vg_out = open(out.name, "rb").read()
+            if rc == 97 or (os.path.exists(log) and os.path.getsize(log) > 0 and rc != 0):
+                keep = os.path.join(VERIF, "replays", "%s-memcheck-%d-%d.log" % (prop, seed, i))
+                os.makedirs(os.path.dirname(keep), exist_ok=True)
+                shutil.copy(log, keep)
+                shutil.copy(os.path.join(tmp, "req%d.jsonl" % i), keep + ".requests.jsonl")
+                acc.violation("valgrind memcheck reported errors while executing the %s op stream (log %s)" % (prop, keep),
+                              {"kind": "memcheck", "log": keep, "head": open(log).read()[:1500]})
+            elif rc != 0:
+                acc.count("memcheck_leg_skipped_rc_%d" % rc)
+            elif vg_out != native_out:
+                acc.violation("results under memcheck differ from the native run (nondeterminism / uninitialised data)",
+                              {"kind": "memcheck", "process": i})
+            else:
+                acc.count("memcheck_clean_processes")
+        acc.cls("memcheck", prop, "ran")
+    finally:
+        shutil.rmtree(tmp, ignore_errors=True)
